@@ -20,6 +20,8 @@ pub struct Profile {
     pub partial_io: bool,
     pub pend_first_pct: u32,
     pub keep_session_pct: u32,
+    /// resumed connections on which the broker has not seen the PUBRECs of the previous one
+    pub lost_pubrecs_pct: u32,
     pub auto_broker_pct: u32,
     pub w_pub: [u32; 3],
     pub w_sub: u32,
@@ -88,6 +90,7 @@ impl Default for Profile {
             partial_io: true,
             pend_first_pct: 50,
             keep_session_pct: 80,
+            lost_pubrecs_pct: 25,
             auto_broker_pct: 30,
             w_pub: [3, 6, 6],
             w_sub: 2,
@@ -228,8 +231,10 @@ pub fn pub_spec(p: &Profile, qos: u8) -> BoxedStrategy<PubSpec> {
     } else {
         Just(None).boxed()
     };
-    (any::<bool>(), 1u32..=p.topic_max.max(1), any::<u8>(), 0u32..=p.payload_max, any::<u8>(), props, corr, cancel(p))
-        .prop_map(move |(retain, tl, tv, pl, ps, mut props, correlate, cancel)| {
+    // payload handed over as a slice (mostly), through a closure, as &str, or through a closure that fails
+    let via = prop::sample::select(vec![0u8, 0, 0, 0, 0, 0, 0, 1, 1, 2, 3]);
+    (any::<bool>(), 1u32..=p.topic_max.max(1), any::<u8>(), 0u32..=p.payload_max, any::<u8>(), props, corr, cancel(p), via)
+        .prop_map(move |(retain, tl, tv, pl, ps, mut props, correlate, cancel, via)| {
             if correlate.is_some() {
                 props.retain(|q| q.id() != 0x09);
             }
@@ -241,6 +246,7 @@ pub fn pub_spec(p: &Profile, qos: u8) -> BoxedStrategy<PubSpec> {
                 props,
                 correlate,
                 cancel,
+                via,
             }
         })
         .boxed()
@@ -351,8 +357,19 @@ pub fn step(p: &Profile) -> BoxedStrategy<Step> {
     if p.w_disconnect > 0 {
         alts.push((
             p.w_disconnect,
-            (prop_oneof![Just(None), Just(Some(0u8)), Just(Some(4u8))], cancel(p))
-                .prop_map(|(reason, cancel)| Step::Disconnect { reason, props: None, cancel })
+            (
+                prop_oneof![Just(None), Just(Some(0u8)), Just(Some(4u8))],
+                // a DISCONNECT with properties is longer than the small control buffer (other code path)
+                prop_oneof![
+                    5 => Just(None),
+                    1 => Just(Some(vec![])),
+                    1 => Just(Some(vec![Prop::SessionExpiry(5)])),
+                    1 => Just(Some(vec![Prop::ReasonString("going down for maintenance".into())])),
+                    1 => Just(Some(vec![Prop::UserProperty("k".into(), "v".into()), Prop::ReasonString("bye".into())])),
+                ],
+                cancel(p),
+            )
+                .prop_map(|(reason, props, cancel)| Step::Disconnect { reason, props, cancel })
                 .boxed(),
         ));
     }
@@ -443,12 +460,13 @@ pub fn connect_spec(p: &Profile) -> BoxedStrategy<ConnectSpec> {
         // string-valued CONNACK properties that are none of the client's business
         1 => Just(vec![Prop::ResponseInfo("resp/base".into()), Prop::ServerReference("other:1883".into()), Prop::ReasonString("ok".into()), Prop::TopicAliasMaximum(10)]),
     ];
-    (handshake(p), pct(p.keep_session_pct), rm, mp, mq, extra, io_cfg(p))
-        .prop_map(|(handshake, keep_session, receive_max, max_packet, max_qos, extra, io)| ConnectSpec {
+    (handshake(p), pct(p.keep_session_pct), rm, mp, mq, extra, io_cfg(p), pct(p.lost_pubrecs_pct))
+        .prop_map(|(handshake, keep_session, receive_max, max_packet, max_qos, extra, io, lost_pubrecs)| ConnectSpec {
             handshake,
             keep_session,
             props: ConnackProps { receive_max, max_packet, max_qos, server_keepalive: None, assigned_id: None, extra },
             io,
+            lost_pubrecs,
         })
         .boxed()
 }
@@ -487,11 +505,25 @@ pub fn cfg(p: &Profile) -> BoxedStrategy<Cfg> {
         Some(("user".to_string(), Vec::new())),
         Some((String::new(), vec![0u8, 255])),
     ]);
-    (p.rx.0..=p.rx.1, p.tx.0..=p.tx.1, pct(p.downgrade_pct), prop::sample::select(p.keepalive.clone()), prop::sample::select(p.session_expiry.clone()), pct(p.unconditional_limits_pct), auth)
-        .prop_map(|(rx, tx, downgrade, keepalive, session_expiry, unconditional_limits, auth)| {
+    // a will (every CONNECT of the session must carry it unchanged; the model compares each one)
+    let will = prop_oneof![
+        4 => Just(None),
+        1 => (1u32..12, any::<u8>(), 0u32..10, any::<u8>(), 0u8..3, any::<bool>(), prop::sample::select(vec![0u8, 1, 2, 3])).prop_map(|(tl, tv, pl, ps, qos, retain, k)| {
+            let props = match k {
+                0 => vec![],
+                1 => vec![Prop::WillDelay(30)],
+                2 => vec![Prop::UserProperty("a".into(), "b".into())],
+                _ => vec![Prop::ContentType("t".into()), Prop::MessageExpiry(7)],
+            };
+            Some(crate::scenario::WillCfg { topic: TopicSpec::new(tl, tv), payload: PayloadSpec::new(pl, ps), qos, retain, props })
+        }),
+    ];
+    (p.rx.0..=p.rx.1, p.tx.0..=p.tx.1, pct(p.downgrade_pct), prop::sample::select(p.keepalive.clone()), prop::sample::select(p.session_expiry.clone()), pct(p.unconditional_limits_pct), auth, will)
+        .prop_map(|(rx, tx, downgrade, keepalive, session_expiry, unconditional_limits, auth, will)| {
             // (the CONNECT must still fit a small transmit arena)
             let auth = if tx >= 64 { auth } else { None };
-            Cfg { rx, tx, downgrade, keepalive, session_expiry, unconditional_limits, auth, ..Cfg::default() }
+            let will = if tx >= 128 { will } else { None };
+            Cfg { rx, tx, downgrade, keepalive, session_expiry, unconditional_limits, auth, will, ..Cfg::default() }
         })
         .boxed()
 }
